@@ -353,6 +353,29 @@ func strconvQuote(s string) string { return strconv.Quote(s) }
 
 var fieldsF = flag.String("fields", "sys,cron", "packages (relative dirs) whose pointer-reached struct field accesses are instrumented at level 3")
 
+var fieldTypesF = flag.String("fieldtypes", "", "qualified struct types (pkgname.Type, comma separated) whose pointer-reached fields are instrumented at level 3 in every instrumented package, in addition to -fields")
+
+func wantFieldType(t types.Type) bool {
+	if *fieldTypesF == "" {
+		return false
+	}
+	p, ok := t.Underlying().(*types.Pointer)
+	if !ok {
+		return false
+	}
+	n, ok := p.Elem().(*types.Named)
+	if !ok || n.Obj() == nil || n.Obj().Pkg() == nil {
+		return false
+	}
+	q := n.Obj().Pkg().Name() + "." + n.Obj().Name()
+	for _, x := range strings.Split(*fieldTypesF, ",") {
+		if strings.TrimSpace(x) == q {
+			return true
+		}
+	}
+	return false
+}
+
 func (fc *fileCtx) wantFields(rel string) bool {
 	for _, p := range strings.Split(*fieldsF, ",") {
 		if strings.TrimSpace(p) == rel {
@@ -366,6 +389,7 @@ func (fc *fileCtx) wantFields(rel string) bool {
 // / *vmem.FW(&p.f, site): a scheduling point at shared locations and an access
 // record for the happens-before race detector.
 func (fc *fileCtx) rewriteFieldAccesses() {
+	allTypes := fc.wantFields(fc.rel) // otherwise only the types named by -fieldtypes
 	pkgName := fc.file.Name.Name
 	for _, d := range fc.file.Decls {
 		fd, ok := d.(*ast.FuncDecl)
@@ -435,6 +459,9 @@ func (fc *fileCtx) rewriteFieldAccesses() {
 				return nil
 			}
 			if _, isPtr := bt.Underlying().(*types.Pointer); !isPtr {
+				return nil
+			}
+			if !allTypes && !wantFieldType(bt) {
 				return nil
 			}
 			if !isPure(se.X) {
